@@ -9,10 +9,15 @@ import cases as C  # noqa
 import corr  # noqa
 from lib import f32, f2h, h2f  # noqa
 
-MODULES = ["InovesaModel.Props.C09", "InovesaModel.Props.TieMoments", "InovesaModel.Props.TieRuler"]
+MODULES = ["InovesaModel.Props.C09", "InovesaModel.Props.TieMoments", "InovesaModel.Props.TieRuler", "InovesaModel.Props.TiePS"]
 LEVEL = "proof"
 U = 2.0 ** -24
 OPS = ["x", "y", "i", "n", "N", "a0", "a1", "v0", "v1", "c", "p"]
+
+
+def psg_case(cid, n, nb, box, zoom, fset, seq):
+    return "psg %s %d %d\nextra %s\noff %s\nops %s\nrun\n" % (
+        cid, n, nb, " ".join(f2h(x) for x in list(box) + [zoom]), " ".join(f2h(x) for x in fset), " ".join(seq))
 
 
 def ps_case(cid, n, nb, box, fset, data, seq):
@@ -75,7 +80,7 @@ def parse_vals(lines, n, nb):
 def gen(rng, count, sizes):
     recs = []
     for k in range(count):
-        kind = ["random", "norm", "gauss", "frame", "copy"][k % 5]
+        kind = ["random", "norm", "gauss", "frame", "copy", "start"][k % 6]
         n = rng.choice(sizes)
         nb = rng.choice([1, 2, 3, 5])
         shx, shy = rng.uniform(-1.5, 1.5), rng.uniform(-1.5, 1.5)
@@ -83,6 +88,18 @@ def gen(rng, count, sizes):
         fset = filling(rng, nb)
         cid = "s%d" % k
         rec = dict(id=cid, kind=kind, n=n, nb=nb, box=box, fset=fset)
+        if kind == "start":
+            # the constructor's own Gaussian start distribution of width `zoom` (gaus + createFromProjections):
+            # every bunch must hold its set share, be centred at 0 and have width zoom
+            n = max(n, 32) + rng.choice([0, 1])
+            zoom = f32(rng.choice([0.5, 0.75, 1.0, 1.25, rng.uniform(0.5, 1.3)]))
+            rec.update(n=n, zoom=zoom)
+            seq = rng.choice([["v0", "v1", "p"], ["p", "c", "v0", "v1", "p"], ["N", "x", "y", "i", "v0", "v1", "p"]])
+            rec["data"] = []
+            rec["seq"] = seq
+            rec["optext"] = psg_case(cid, n, nb, box, zoom, fset, seq)
+            recs.append(rec)
+            continue
         if kind == "random":
             data = [abs(x) for x in C.data_family(rng, n, nb, rng.choice(["gauss", "noise", "impulse"]), 0)]
             seq = [rng.choice(OPS) for _ in range(rng.randint(3, 30))] + ["p"]
@@ -164,6 +181,25 @@ def oracle(rec, A):
             tot += want if want > 0 else 0
         if not abs(st["integral"] - tot) <= 32 * n * U:
             return "total integral %r after renormalisation (expected %r)" % (st["integral"], tot)
+    if k == "start":
+        st = pr[-1]
+        z = rec["zoom"]
+        tot = 0.0
+        for b in range(nb):
+            want = rec["fset"][b]
+            got = st["filling"][b]
+            if want > 0:
+                tot += want
+                if not abs(got - want) <= 16 * n * U * want:
+                    return "Gaussian start of width %r: bunch %d holds %r, set share %r" % (z, b, got, want)
+                for name, g, w, sc in (("position", st["mean"][b], 0.0, z), ("length", st["rms"][b], z, z),
+                                       ("mean energy", st["mean"][nb + b], 0.0, z), ("spread", st["rms"][nb + b], z, z)):
+                    if not abs(g - w) <= 5e-3 * sc:
+                        return "Gaussian start of width %r: bunch %d %s reported %r, expected %r" % (z, b, name, g, w)
+            elif got != 0.0:
+                return "Gaussian start: empty bucket %d holds %r" % (b, got)
+        if not abs(st["integral"] - tot) <= 32 * n * U:
+            return "Gaussian start: total charge %r (expected %r)" % (st["integral"], tot)
     if k in ("gauss", "frame"):
         st = pr[-1]
         for b in range(nb):
